@@ -564,10 +564,24 @@ func (o *Ownership) reflectTaint(f *ssa.Function) map[ssa.Value]int {
 		}
 	}
 	// propagate through methods of reflect.Value returning reflect.Value (Elem, Field, FieldByName, Index) — only after Elem()
+	isReflectValue := func(t types.Type) bool {
+		n := namedOf(t)
+		return n != nil && n.Obj().Pkg() != nil && n.Obj().Pkg().Path() == "reflect" && n.Obj().Name() == "Value"
+	}
 	for changed := true; changed; {
 		changed = false
 		for _, b := range f.Blocks {
 			for _, ins := range b.Instrs {
+				// one result of a helper call that was given a derived value
+				if ex, isEx := ins.(*ssa.Extract); isEx {
+					if _, done := res[ex]; !done && isReflectValue(ex.Type()) {
+						if i, ok := res[ex.Tuple]; ok {
+							res[ex] = i
+							changed = true
+						}
+					}
+					continue
+				}
 				c, ok := ins.(*ssa.Call)
 				if !ok {
 					continue
@@ -576,6 +590,27 @@ func (o *Ownership) reflectTaint(f *ssa.Function) map[ssa.Value]int {
 					continue
 				}
 				callee := c.Call.StaticCallee()
+				// a small unexported repository helper that looks a field up ("settableFieldByName(v, name)") hands the
+				// derived value on: its reflect.Value results still denote memory of the same parameter
+				if callee != nil && callee.Blocks != nil && strings.HasPrefix(fnPkgPath(callee), repoMod) && !isExportedFn(originOf(callee)) {
+					returnsValue := false
+					rs := callee.Signature.Results()
+					for k := 0; k < rs.Len(); k++ {
+						if isReflectValue(rs.At(k).Type()) {
+							returnsValue = true
+						}
+					}
+					if returnsValue {
+						for _, a := range c.Call.Args {
+							if i, ok := res[a]; ok {
+								res[c] = i
+								changed = true
+								break
+							}
+						}
+					}
+					continue
+				}
 				if callee == nil || fnPkgPath(callee) != "reflect" || len(c.Call.Args) == 0 {
 					continue
 				}
